@@ -213,8 +213,9 @@ class ClientHarness:
             return "error:Timeout"
         if isinstance(e, ConnectionResetError):
             return "error:ConnectionResetError"
-        if isinstance(e, ConnectionError) and "Could not read the certificate" in msg:
-            return "error:CertificateUnreadable"
+        if isinstance(e, ConnectionError) and not isinstance(e, ConnectionResetError) and \
+                ("Could not read the certificate" in msg or (self.tofu == "unreadable" and not (self.tr and self.tr.wire))):
+            return "error:CertificateUnreadable"      # recognised by its kind (nothing was sent to an unreadable certificate), not its wording
         if isinstance(e, ConnectionError) and "before receiving response" in msg:
             return "error:ConnectionError:closedBeforeHeader"
         if isinstance(e, UnicodeDecodeError):
@@ -260,6 +261,34 @@ class ClientHarness:
         asyncio.set_event_loop(None)
         self.loop.close()
         shutil.rmtree(self.dir, ignore_errors=True)
+
+
+def caller_class(c):
+    """What the property distinguishes about the way a call ends: a response, the pin refusals, the timeout - and "an
+    exception that names the problem", whichever exception that is."""
+    return c if c in ("waiting", "response", "error:Timeout", "error:CertificateChanged", "error:CertificateUnreadable") else "error"
+
+
+def expected_class(rec, cap=10 * 1024 * 1024):
+    """ClientConn!Expected for a script record, as a set of classes."""
+    s = rec
+    if not s["crlf"] or s["sendLen"] < s["hdrLen"] + 2:
+        if s["sendLen"] > cap:
+            return {"error"}
+        return {"error:Timeout"} if s["ends"] == "never" else {"error"}
+    if s["hdrCls"] in ("badUtf8", "badStatus") or not (10 <= s["status"] <= 69):
+        return {"error"}
+    if not (20 <= s["status"] <= 29):
+        return {"response"}
+    if s["sendLen"] - (s["hdrLen"] + 2) > cap:
+        return {"error"}
+    if s["ends"] == "never":
+        return {"error:Timeout"}
+    if s["ends"] == "rst":
+        return {"error"}
+    if s["text"] and (s["charset"] == "unknown" or not s["bodyOK"]):
+        return {"error"}
+    return {"response"}
 
 
 def model_projection(st):
